@@ -541,3 +541,65 @@ Proof.
     + rewrite Hd in H. eapply strip_spec; eauto.
   - destruct Hm as (_ & Ht & _ & Hi). auto.
 Qed.
+
+(* ------------------------------------------------------------------ requests the BNG sends *)
+Section T.
+Variable md5raw : bytes -> bytes.
+Notation md5 := (md5 md5raw).
+Notation hmac := (hmac md5raw).
+
+(* Access-Request (code 1) as built by Authenticate + exchange: the Message-Authenticator placeholder is
+   filled with HMAC-MD5 over the packet as sent (RFC 3579 section 3.2), the authenticator is kept *)
+Lemma access_request_ma_valid (secret : bytes) (id : N) (auth : bytes) (pre post : list attr) :
+  length auth = 16%nat -> Forall (fun a => ma_like a = false) pre ->
+  exists req,
+    build_request md5raw secret 1 id auth (pre ++ (80, zeros16) :: post) = Some req /\
+    sub 4 16 req = auth /\ ma_ok_asis md5raw secret req = true.
+Proof.
+  intros Ha Hpre. unfold build_request. simpl orb. cbv iota.
+  rewrite enc_attrs_app.
+  change (enc_attrs ((80, zeros16) :: post)) with ([80; 18] ++ zeros16 ++ enc_attrs post).
+  set (hdr := [1; id] ++ put16 (N.of_nat (20 + length (enc_attrs pre ++ [80; 18] ++ zeros16 ++ enc_attrs post)))).
+  assert (Hhdr : length hdr = 4%nat) by reflexivity.
+  set (off := (20 + length (enc_attrs pre) + 2)%nat).
+  pose (pk := fun v : bytes => (hdr ++ auth) ++ enc_attrs pre ++ [80; 18] ++ v ++ enc_attrs post).
+  assert (Hh20 : length (hdr ++ auth) = 20%nat) by (rewrite app_length; lia).
+  assert (Hfind : forall v, length v = 16%nat -> find_attr80 (pk v) = Some off)
+    by (intros v Hv; unfold pk; apply find80_ma; auto).
+  assert (Hassoc : forall v, pk v = ((hdr ++ auth) ++ enc_attrs pre ++ [80; 18]) ++ v ++ enc_attrs post)
+    by (intros v; unfold pk; rewrite <- !app_assoc; reflexivity).
+  assert (Hoff : length ((hdr ++ auth) ++ enc_attrs pre ++ [80; 18]) = off)
+    by (rewrite !app_length; rewrite Hhdr, Ha; simpl length; unfold off; lia).
+  assert (Hset : forall v v', length v = 16%nat -> length v' = 16%nat -> set_at off (pk v) v' = pk v').
+  { intros v v' Hv Hv'. rewrite !Hassoc. apply set_at_app; [exact Hoff|lia]. }
+  assert (He : hdr ++ auth ++ enc_attrs pre ++ [80; 18] ++ zeros16 ++ enc_attrs post = pk zeros16)
+    by (unfold pk; rewrite <- !app_assoc; reflexivity).
+  rewrite He, (Hfind zeros16 eq_refl).
+  set (mac := hmac secret (pk zeros16)).
+  assert (Hmac : length mac = 16%nat) by apply hmac_length.
+  rewrite (Hset zeros16 mac eq_refl Hmac).
+  eexists. split; [reflexivity|]. split.
+  - unfold pk. rewrite <- !app_assoc. apply sub_app; [exact Hhdr|exact Ha].
+  - unfold ma_ok_asis. rewrite (Hfind mac Hmac), (Hset mac zeros16 Hmac eq_refl).
+    rewrite (Hassoc mac). rewrite (sub_app _ mac _ off 16 Hoff Hmac). apply beq_refl.
+Qed.
+
+(* Accounting-Request (code 4) without Message-Authenticator: the Request Authenticator verifies (RFC 2866) *)
+Lemma accounting_request_auth_valid (secret : bytes) (id : N) (auth : bytes) (attrs : list attr) :
+  Forall (fun a => ma_like a = false) attrs ->
+  exists req, build_request md5raw secret 4 id auth attrs = Some req /\ req_auth_ok md5raw secret req = true.
+Proof.
+  intros Hpre. unfold build_request. simpl orb. cbv iota.
+  set (hdr := [4; id] ++ put16 (N.of_nat (20 + length (enc_attrs attrs)))).
+  assert (Hhdr : length hdr = 4%nat) by reflexivity.
+  set (ra := md5 (hdr ++ zeros16 ++ enc_attrs attrs ++ secret)).
+  assert (Hral : length ra = 16%nat) by apply md5_length.
+  rewrite app_assoc, find80_none; auto; [|rewrite app_length; lia].
+  eexists. split; [reflexivity|]. unfold req_auth_ok. rewrite <- app_assoc.
+  rewrite (firstn_app_exact hdr _ 4 Hhdr).
+  replace (skipn 20 (hdr ++ ra ++ enc_attrs attrs)) with (enc_attrs attrs)
+    by (rewrite app_assoc; symmetry; apply skipn_app_exact; rewrite app_length; lia).
+  rewrite (sub_app hdr ra _ 4 16 Hhdr Hral). apply beq_refl.
+Qed.
+
+End T.
